@@ -187,6 +187,88 @@ def run(run: common.Run):
     run_writes(run, rng, quick, idx)
 
 
+def mask_writes(run, rng, quick, idx, cases, lines, impls):
+    """
+    Writes of blocks that hold invalid pixels, into datasets whose validity is an internal mask (nodata None) or a numeric
+    nodata value, through windows smaller than / equal to / larger than the block: after the write every pixel of
+    window ∩ dataset holds the block's pixel *and its validity* at its own location.  Model: `write2` with the block's
+    validity applied to the reply ('x' = written as invalid).
+    """
+    from homonim.raster_array import RasterArray
+    combos = []
+    for (n, m) in ([(4, 5)] if quick else [(4, 5), (3, 3), (6, 7)]):
+        for (r0, c0, rl, cl) in [(-1, -1, n + 2, m + 2), (0, 0, n, m), (1, 1, 3, 3), (-2, 2, 4, 4), (n - 2, m - 2, 4, 4)]:
+            wins = [None, (r0 + 1, r0 + rl - 1, c0 + 1, c0 + cl - 1), (r0, r0 + rl, c0 + 1, c0 + cl), (r0 + 1, r0 + rl, c0, c0 + cl - 1),
+                    (r0 - 2, r0 + rl + 2, c0 - 2, c0 + cl + 2)]
+            for w in wins:
+                for nd in (None, -9999.0):
+                    combos.append((n, m, (r0, c0, rl, cl), w, nd))
+    with rio.Env(GDAL_TIFF_INTERNAL_MASK=True, GTIFF_FORCE_RGBA=False):
+        for k, (n, m, blk, w, nd) in enumerate(combos):
+            idx += 1
+            if run.only is not None and idx not in run.only:
+                continue
+            r0, c0, rl, cl = blk
+            g = rasters.Grid(8 * 3000, 8 * 5000, 16, 16, m, n)
+            case = dict(i=idx, op='write-validity', n=n, m=m, block=blk, window=w, ds_nodata=nd)
+            p = run.tmpdir() / 'c20_wm.tif'
+            barr = np.array([[r * 8 + c + 1 for c in range(cl)] for r in range(rl)], dtype='float32')
+            bvalid = np.ones((rl, cl), bool)
+            # an irregular invalid pattern: one corner-ish pixel, one interior pixel, part of a row
+            bvalid[0, (k % cl)] = False
+            bvalid[rl // 2, cl // 2] = False
+            bvalid[rl - 1, : 1 + k % 2] = False
+            barr[~bvalid] = np.nan
+            bg = rasters.Grid(g.x0 + c0 * g.px, g.ytop - r0 * g.py, g.px, g.py, cl, rl)
+            ra = RasterArray(barr, rasters.CRS3857, bg.transform, nodata=float('nan'))
+            prof = dict(driver='GTiff', width=m, height=n, count=1, dtype='float32', crs=rasters.CRS3857,
+                        transform=g.transform, nodata=nd)
+            err = None
+            with rio.open(p, 'w', **prof) as ds:
+                ds.write(np.full((n, m), -1, dtype='float32'), 1)
+                try:
+                    win = None if w is None else Window(w[2], w[0], w[3] - w[2], w[1] - w[0])
+                    ra.to_rio_dataset(ds, indexes=1, window=win)
+                except Exception as ex:
+                    err = f'{type(ex).__name__}: {str(ex)[:80]}'
+            run.evaluations += 1
+            ww = w if w is not None else (r0, r0 + rl, c0, c0 + cl)
+            run.hist[f'write-validity: dataset nodata={nd}'] += 1
+            if err:
+                irep = 'err'
+                if r0 <= ww[0] and ww[1] <= r0 + rl and c0 <= ww[2] and ww[3] <= c0 + cl:
+                    run.fail(case, f'write of a block that contains the window raised {err}', signature=dict(kind='write-raises'))
+            else:
+                with rio.open(p) as ds:
+                    back = ds.read(1)
+                    mk = ds.read_masks(1).astype(bool)
+                rows, bad = [], None
+                for r in range(n):
+                    toks = []
+                    for c in range(m):
+                        v = back[r, c]
+                        if v == -1:
+                            toks.append('_')
+                            continue
+                        invalid = (not mk[r, c]) if nd is None else (v == nd)
+                        toks.append('x' if invalid else ('nan' if np.isnan(v) else '%d.%d' % divmod(int(v) - 1, 8)))
+                        # leg 3: validity of a written pixel = validity of the block pixel at the same location
+                        br, bc = r - r0, c - c0
+                        if 0 <= br < rl and 0 <= bc < cl and invalid == bool(bvalid[br, bc]):
+                            bad = (r, c, 'valid' if not invalid else 'invalid', 'block pixel is ' + ('valid' if bvalid[br, bc] else 'invalid'))
+                    rows.append(' '.join(toks))
+                irep = 'ok ' + ';'.join(rows)
+                if bad:
+                    run.fail(case, f'after the write the validity of a pixel is not that of the block pixel written there: {bad}',
+                             signature=dict(kind='write-validity'))
+            run.nontrivial.add(('wm', n, m, blk, w, nd))
+            case['_bvalid'] = bvalid.tolist()
+            cases.append(case)
+            lines.append(f'write2 {n} {m} {r0} {rl} {c0} {cl} {ww[0]} {ww[1]} {ww[2]} {ww[3]}')
+            impls.append(irep)
+    return idx
+
+
 def run_writes(run, rng, quick, idx0):
     from homonim.raster_array import RasterArray
     cases, lines, impls = [], [], []
@@ -262,6 +344,7 @@ def run_writes(run, rng, quick, idx0):
             impls.append(irep)
             if len(run.samples) < 8:
                 run.samples.append(dict(case=case, impl=irep[:100]))
+    idx = mask_writes(run, rng, quick, idx, cases, lines, impls)
     failed = {f['case']['i'] for f in run.failures}
     replies = common.model_batch(lines)
     if replies is None:
@@ -271,6 +354,11 @@ def run_writes(run, rng, quick, idx0):
         run.lines_compared += 1
         if case['i'] in failed:
             continue
+        if case.get('_bvalid') is not None and mrep.startswith('ok'):
+            bv = case['_bvalid']
+            mrep = 'ok ' + ';'.join(' '.join(
+                t if t == '_' else ('x' if not bv[int(t.split('.')[0])][int(t.split('.')[1])] else t)
+                for t in (row.split(' ') if row else [])) for row in mrep[3:].split(';'))
         if mrep.strip() != irep.strip():
             run.disagree(case, line, mrep, irep)
     run.extra['exhaustive_slice'] = ('reads: all per-axis integer windows with offset in [-N-3,N+3] and size 0..N+3 '
